@@ -43,6 +43,7 @@ var c06Vars = []c06Arg{
 	{"vby", "byte", 0, nil}, {"vsl", "[]int", 0, nil}, {"va", "any", 0, nil}, {"ve", "error", 0, nil}, {"vt", "ov.T", 0, nil},
 	{"vpt", "*ov.T", 0, nil}, {"vfn", "func(int) int", 0, nil}, {"vfs", "func(string) string", 0, nil}, {"vm", "map[string]int", 0, nil}, {"vc", "chan int", 0, nil}, {"vmi", "ov.MyInt", 0, nil},
 }
+
 // a generic function value: matching it against a function-typed parameter instantiates it in place
 var c06Gen = c06Arg{"ov.Gen", "generic", 2, nil}
 
